@@ -18,11 +18,26 @@ Record obs := Ob {
   o_loops : list str                 (* FillCache.refreshLoopGroups after the event *)
 }.
 
+(* A storm: 2-8 goroutines call RefreshLoop for the SAME group at the same moment (directly, or through
+   the Google / Cognito membership code for an uncached group) with a millisecond start-up jitter, the
+   directory answering at once.  The order of events is the scheduler's, so nothing is replayed in
+   the model; only invariants are judged, per group, over the time before Stop. *)
+Record storm_obs := SO {
+  so_group : str;
+  so_callers : N;                    (* goroutines released together *)
+  so_trues : N;                      (* RefreshLoop calls that answered "started" (0 when called through a provider) *)
+  so_fills : N;                      (* fill-function calls for the group until every loop had exited *)
+  so_maxconc : N;                    (* most fills of the group ever running at once inside the directory *)
+  so_periods : option N              (* None: refresh period 1 h (first fill only);
+                                        Some p: p whole refresh periods of wall time elapsed from release to exit *)
+}.
+
 Record case := Case {
   c_kind : N;                        (* 0 Google+FillCache, 1 Cognito+FillCache, 2 GroupCache+LocalCache *)
   c_groups : list str;               (* universe of group names of the scenario *)
   c_hung : bool;                     (* a wait exceeded the per-case deadline *)
-  c_steps : list (event * obs)
+  c_steps : list (event * obs);
+  c_storm : list storm_obs           (* [] for a forced schedule *)
 }.
 
 (* ---------- boolean equalities ---------- *)
@@ -163,9 +178,18 @@ Fixpoint mon_run (tok nam : bool) (groups : list str) (m : mon) (steps : list (e
       ok && mon_run tok nam groups m' rest
   end.
 
+(* Single loop / single fill under a storm.  With no loop exit before Stop, C17_single_loop_trace
+   bounds the "started" answers per group by 1.  One loop calls the fill function once at once and
+   then once per tick (fillcache.go:146-165), and a ticker delivers at most one tick per period, so in
+   p elapsed periods one loop makes at most p + 2 calls (+1 slack); with a 1 h period exactly one. *)
+Definition storm_ok (o : storm_obs) : bool :=
+  N.leb (so_trues o) 1 && N.leb (so_maxconc o) 1 &&
+  N.leb (so_fills o) (match so_periods o with None => 1 | Some p => p + 3 end).
+
 Definition holds (c : case) : bool :=
   let evs := map fst (c_steps c) in
-  mon_run (tokens_ok_b evs) (asks_ok_b evs) (c_groups c) mon_init (c_steps c).
+  mon_run (tokens_ok_b evs) (asks_ok_b evs) (c_groups c) mon_init (c_steps c) &&
+  forallb storm_ok (c_storm c).
 
 Definition judge (c : case) : N :=
   code (c_hung c || mismatches (c_groups c) w_init (c_steps c)) (holds c) 0.
@@ -198,4 +222,8 @@ Definition feature (x : event * obs) : N :=
   end.
 
 Definition classify (c : case) : N :=
-  fold_left (fun acc x => N.lor acc (feature x)) (c_steps c) 0.
+  fold_left (fun acc x => N.lor acc (feature x)) (c_steps c) 0 +
+  match c_storm c with
+  | [] => 0
+  | o :: _ => 2048 + (match so_periods o with None => 0 | Some _ => 4096 end)
+  end.
